@@ -417,6 +417,7 @@ pub fn check(e: &Engine) {
 			confirm: 1,
 			max_shrink_iters: 200,
 			rule: "argument vectors of 0-6 strings rich in spaces, tabs, newlines, quotes, $, *, backslashes, empty strings and non-ASCII text; exec or shell (helper binary used as the shell, 0-3 options, program option none / -c / /C / arbitrary, command string, extra args); plain / grouped / session, reset_sigmask; spawned directly or through a Job whose spawn hook sets env and cwd; non-trivial = an argument with special characters",
+			confirm_any: &[],
 		},
 		&strategy,
 		&run,
@@ -431,6 +432,7 @@ pub fn check(e: &Engine) {
 			confirm: 1,
 			max_shrink_iters: 20,
 			rule: "real processes: a job with an env-setting spawn hook goes through 1-4 of restart / try_restart / restart_with_signal / try_restart_with_signal with a command that exits on or ignores the stop signal (grace 120 ms); every spawned process must see the hook's environment",
+			confirm_any: &[],
 		},
 		&|| (proptest::collection::vec(0u8..4, 1..5), any::<bool>(), "[a-z ]{1,8}").prop_map(|(ops, ignore, value)| HookPathCase { ops, ignore, value }).boxed(),
 		&run_hook_paths,
@@ -444,6 +446,7 @@ pub fn check(e: &Engine) {
 			confirm: 1,
 			max_shrink_iters: 30,
 			rule: "the real CLI (wx shim) with -1: --shell=<helper [opts]> joins the words with single spaces behind -c; -n passes the words verbatim",
+			confirm_any: &[],
 		},
 		&|| {
 			(any::<bool>(), proptest::collection::vec("[a-z-]{1,5}", 0..3), proptest::collection::vec(prop_oneof![3 => "[a-z]{1,6}", 1 => Just("b  c".to_string()), 1 => Just("x y".to_string()), 1 => Just(" lead".to_string()), 1 => Just("trail ".to_string()), 1 => Just("ü".to_string()), 1 => Just("$X".to_string())], 1..5))
